@@ -31,6 +31,10 @@ pub enum Disc {
     One,
     /// fully consumed
     All,
+    /// untouched, then dropped *while the thread unwinds* from a panic of the caller (caught)
+    Unwind,
+    /// one `next()`, then dropped while the thread unwinds
+    OneUnwind,
 }
 
 #[derive(Clone, Debug, PartialEq, Eq, Hash)]
@@ -89,6 +93,8 @@ impl fmt::Display for Disc {
             Disc::Drop => "drop",
             Disc::One => "one",
             Disc::All => "all",
+            Disc::Unwind => "unwind",
+            Disc::OneUnwind => "one-unwind",
         })
     }
 }
@@ -140,6 +146,8 @@ impl Act {
             "drop" => Some(Disc::Drop),
             "one" => Some(Disc::One),
             "all" => Some(Disc::All),
+            "unwind" => Some(Disc::Unwind),
+            "one-unwind" => Some(Disc::OneUnwind),
             _ => None,
         };
         let pairs = |s: &str| -> Option<Vec<(String, Val)>> {
@@ -375,6 +383,8 @@ pub struct Cfg {
     pub max_depth: Option<usize>,
     pub inits: Vec<Init>,
     pub fine_key: bool,
+    /// whether the guards are also dropped while the thread unwinds (two more disciplines)
+    pub unwinding: bool,
     /// extra length allowed above the initial length for pumped starts
     pub absent_key: String,
 }
@@ -429,13 +439,26 @@ fn consume<I: Iterator<Item = Entry>>(mut it: I, d: Disc) -> Vec<(String, Val)> 
         Disc::Drop => Vec::new(),
         Disc::One => it.next().iter().map(entry_of).collect(),
         Disc::All => it.by_ref().map(|e| entry_of(&e)).collect(),
+        Disc::Unwind | Disc::OneUnwind => {
+            // the guard is alive when the caller panics: it is dropped by the unwinding (where
+            // `std::thread::panicking()` is true) and must finish its work all the same
+            let mut got = Vec::new();
+            let _ = std::panic::catch_unwind(std::panic::AssertUnwindSafe(|| {
+                let mut it = it;
+                if d == Disc::OneUnwind {
+                    got.extend(it.next().iter().map(entry_of));
+                }
+                std::panic::resume_unwind(Box::new("the caller panics while the guard is alive"));
+            }));
+            got
+        }
     }
 }
 
 fn expect_prefix(got: &[(String, Val)], full: &[(String, Val)], d: Disc, what: &str) -> Result<(), String> {
     let want: &[(String, Val)] = match d {
-        Disc::Drop => &[],
-        Disc::One => &full[..full.len().min(1)],
+        Disc::Drop | Disc::Unwind => &[],
+        Disc::One | Disc::OneUnwind => &full[..full.len().min(1)],
         Disc::All => full,
     };
     if got == want {
@@ -945,7 +968,7 @@ impl Model for ObjModel {
         }
         let len = s.model.len();
         let room = len < self.cfg.max_len;
-        let discs = [Disc::Drop, Disc::One, Disc::All];
+        let discs: &[Disc] = if self.cfg.unwinding { &[Disc::Drop, Disc::One, Disc::All, Disc::Unwind, Disc::OneUnwind] } else { &[Disc::Drop, Disc::One, Disc::All] };
         for k in &self.cfg.keys {
             for &v in &self.cfg.vals {
                 if room {
@@ -962,7 +985,7 @@ impl Model for ObjModel {
                 }
                 let present = s.model.contains(k);
                 if present || room {
-                    for d in discs {
+                    for &d in discs {
                         out.push(Act::Insert(k.clone(), v, d));
                     }
                     out.push(Act::GetOrInsertWith(k.clone(), v));
@@ -975,7 +998,7 @@ impl Model for ObjModel {
                 // insert_front grows the object unless the key is already first
                 if room || s.model.entries.first().map(|e| &e.0) == Some(k) || present {
                     // (if present elsewhere the net length does not grow)
-                    for d in discs {
+                    for &d in discs {
                         out.push(Act::InsertFront(k.clone(), v, d));
                     }
                 }
@@ -984,7 +1007,7 @@ impl Model for ObjModel {
                     out.push(Act::GetUniqueMutWrite(k.clone(), v));
                 }
             }
-            for d in discs {
+            for &d in discs {
                 out.push(Act::Remove(k.clone(), d));
             }
             out.push(Act::RemoveUnique(k.clone()));
@@ -1020,6 +1043,8 @@ impl Model for ObjModel {
     }
 
     fn next_state(&self, s: &St, a: Act) -> Option<St> {
+        // (under the watchdog: an operation or a query that never returns is a violation)
+        explore::watched_for(60, b"one operation of the history search on the real Object, or the queries after it", || {
         let mut n = s.clone();
         n.depth += 1;
         KIND_COUNT[a.kind_index()].fetch_add(1, std::sync::atomic::Ordering::Relaxed);
@@ -1059,6 +1084,7 @@ impl Model for ObjModel {
             n.depth = 0;
         }
         Some(n)
+            })
     }
 
     fn properties(&self) -> Vec<Property<Self>> {
